@@ -189,7 +189,8 @@ reg("C07", ["c07"], level="proof", technique=TECH_PARTIAL,
          "thorough: all 64 positions x 4 requests x 2 styles). The binary supplies byte-wise early-exit memcmp/bcmp. distinct = distinct groups",
     text="Proved: in the leakage model the steps of the constant-time comparison depend only on operand lengths, hence the steps of "
          "validate_signature are independent of the presented signature's content; the model distinguishes an early-exit comparison "
-         "(non-vacuity); the comparison expression regenerated from auth.rs is one of the audited ct_eq forms. Observed, not proved: the "
+         "(non-vacuity); the verdict of validate_signature is assigned from a single subtle ct_eq call and nothing else in its body compares "
+         "the presented signature (classification regenerated from auth.rs). Observed, not proved: the "
          "compiled instruction trace (ptrace single-step equality over mismatch positions). Partial: no ISA semantics is available offline.",
     note="Trusted: kernel; Model/Leakage.v as the leakage model; extract_src.py for the comparison expression; ptrace observation of the "
          "release build on this machine; `subtle` itself is not verified.",
@@ -202,8 +203,10 @@ reg("C08", ["c08"], technique=TECH_PARTIAL,
          "0x80-0xFF, option x requirement combinations, secrets of every length for capacities 0..64; outcome class compared with the model.",
     text="Machine-checked theorems: validate never returns Panicked (every explicit panic branch of the model - unescape of normalised query "
          "values, the credential-scope split after prevalidate, empty value vectors - is unreachable, by invariants on the maps built by "
-         "query_map/normalize_headers); from_str never panics for any length and capacity; every panic-capable site regenerated from the "
-         "non-test source is in the audited inventory. Partial w.r.t. third-party crates (encoding, regex, http, chrono are oracles).",
+         "query_map/normalize_headers); from_str never panics for any length and capacity. Advisory (not an obligation): panic-capable "
+         "sites of the source that are not in the audited inventory widen the search of this check and are listed in the evidence. A generator "
+         "that does not terminate (the implementation loops) is reported as a violation. Partial w.r.t. third-party crates (encoding, regex, "
+         "http, chrono are oracles).",
     note="Trusted: kernel; " + PIPE + " with explicit Panic branches guarded as in Rust; extract_src.py panic-site scanner (syntactic); "
          "catch_unwind observation in the harness (release profile).",
     assumptions=["operations documented as panicking on malformed escapes (unescape_uri_encoding) are excepted, as the property says", THIRD],
